@@ -20,8 +20,39 @@ RULE = ("token streams of line-shape documents (4 container prefixes x 17 leaves
 PREF = ["", "> ", "- ", "3. "]
 LEAF = ["", "a", "# a", "*a* `b`", "![x ![y](z)](w)", "[l][r]", "[r]: /u", "![]()", "a|b", "-|-", "```py", "---",
         "a\\*b &amp;", "<b>", "[](u)", "**", "7) a"]
-CFGS = [C.cfg("js-default", {"store_labels": True, "inline_definitions": True}),
+CFGS = [dict(C.cfg("js-default", {"store_labels": True}), plugin="attrs"),
+        C.cfg("js-default", {"store_labels": True, "inline_definitions": True}),
         C.cfg("commonmark", {"typographer": True, "store_labels": True}, enable=["table", "strikethrough", "replacements", "smartquotes"])]
+
+
+def _attr_plugin(md):
+    """what attribute-injecting plugins do (line-number / class recipes): attrs on block tokens incl. fences"""
+    def add_attrs(state):
+        for t in state.tokens:
+            if t.map and t.nesting >= 0 and t.type != "inline":
+                t.attrSet("data-line", t.map[0])
+            if t.type in ("fence", "code_block"):
+                t.attrJoin("class", "hl")
+            for c in t.children or []:
+                if c.type in ("image", "link_open", "code_inline"):
+                    c.attrJoin("class", "x")
+
+    md.core.ruler.push("add_attrs", add_attrs)
+
+
+_plugin_md = {}
+
+
+def build(c):
+    if c.get("plugin"):
+        k = C.key(c)
+        if k not in _plugin_md:
+            base = {x: v for x, v in c.items() if x != "plugin"}
+            md = C.build(base, fresh=True)
+            md.use(_attr_plugin)
+            _plugin_md[k] = md
+        return _plugin_md[k]
+    return C.build(c)
 
 
 def lines():
@@ -127,7 +158,7 @@ def shards(tier):
     sh = []
     for ci in range(len(CFGS)):
         for f in lines():
-            sh.append(("lines", f, 3 if (th or ci == 0) else 2, ci))
+            sh.append(("lines", f, 3 if (th or ci == 1) else 2, ci))
         for f in S.ATOMS_CORE:
             sh.append(("inl", f, 4 if th else 3, ci))
     n = len(S.corpus_seeds())
@@ -164,7 +195,7 @@ def _iter(sh):
 def run_shard(sh, acc):
     first = True
     for c, mode, src in _iter(sh):
-        md = C.build(c)
+        md = build(c)
         acc.case()
         if first:
             acc.sample(sh[0], {"cfg": c, "mode": mode, "src": src})
@@ -175,7 +206,7 @@ def run_shard(sh, acc):
 
 
 def check_case(case, acc):
-    md = C.build(case["cfg"], fresh=True)
+    md = build(case["cfg"])
     acc.case()
     r = _one(md, case["mode"], case["src"], acc)
     if r:
